@@ -223,6 +223,18 @@ class FindRuleSize(Transformer):
         return max(self._args_as_int(args))
 
 
+def _filter_out_flags(x):
+    "The filter_out of every terminal in (a tuple of) trees and symbols, in order"
+    if isinstance(x, Tree):
+        for t in x.scan_values(lambda v: isinstance(v, Terminal)):
+            yield t.filter_out
+    elif isinstance(x, Terminal):
+        yield x.filter_out
+    elif isinstance(x, tuple):
+        for i in x:
+            yield from _filter_out_flags(i)
+
+
 @inline_args
 class EBNF_to_BNF(Transformer_InPlace):
     def __init__(self):
@@ -240,7 +252,9 @@ class EBNF_to_BNF(Transformer_InPlace):
     def _cache_key(self, key):
         # Helper rules inherit keep_all_tokens from the rule they were generated for,
         # so they can't be shared between rules that keep all tokens and rules that filter them.
-        return key, bool(self.rule_options and self.rule_options.keep_all_tokens)
+        # Terminals compare equal by name, so a filtered literal and the kept terminal of the same name
+        # (X: "x" next to an anonymous "x") need the filter_out of every terminal in the key as well.
+        return key, bool(self.rule_options and self.rule_options.keep_all_tokens), tuple(_filter_out_flags(key))
 
     def _add_rule(self, key, name, expansions):
         t = NonTerminal(name)
